@@ -325,7 +325,11 @@ var c11Advertised = probe.Define("C11", "advertised", func(t *rapid.T) c11AdvIn 
 		}
 		peer := ref.LeftPad(ref.ModExp(bigTwo, bigTwo, refPrime(s.DH)), ref.DHs[s.DH].Bits/8)
 		var got *security.IKESAKey
-		if err := probe.Try(func() error { var e error; got, _, e = security.NewIKESAKey(back, peer, []byte("nonces"), 1, 2); return e }); err != nil {
+		if err := probe.Try(func() error {
+			var e error
+			got, _, e = security.NewIKESAKey(back, peer, []byte("nonces"), 1, 2)
+			return e
+		}); err != nil {
 			return probe.Fail("NewIKESAKey from the library's own proposal: %v", err)
 		}
 		if got.EncrInfo != sa.EncrInfo || got.IntegInfo != sa.IntegInfo || got.PrfInfo != sa.PrfInfo || got.DhInfo != sa.DhInfo {
